@@ -41,16 +41,13 @@ import os
 import pickle
 import re
 import shutil
-import signal
 import sys
 import tempfile
 import textwrap
 import time
-import traceback
 from pathlib import Path
 
 LEVEL = "model_checking"
-KINDS = ("LZ", "WC", "TC", "RUN")
 TOOL = 4
 OP_TIMEOUT = 90
 PLAN_QUICK = (3, 4)   # max history length: all 24 ops / the 12 ops of one program
